@@ -131,6 +131,10 @@ SealCore(pre, action, txs, rewardid, post) ==
   \cup (IF defined /\ coinsNoReward # expNoReward
         THEN {V("C15", "coins after sealing differ from the pro-rata settlement of the block's genuine requests", "")} ELSE {})
   \cup (IF defined /\ ~poolsEq THEN {V("C15", "pool reserves / liquidity after sealing differ from the settlement of the block's requests, pegging and subsidy", "")} ELSE {})
+  \cup (IF defined /\ DOMAIN ppm = DOMAIN e.pools /\ \E k \in DOMAIN ppm : ppm[k].liqs # e.pools[k].liqs
+        THEN {V("C16", "a pool's recorded liquidity after sealing is not: previous + minted by the block's deposits - redeemed by its withdrawals", "")} ELSE {})
+  \cup (IF defined /\ \E c \in DOMAIN pcm \cap DOMAIN e.cm : pcm[c] # e.cm[c] /\ \E p \in RangeS(post.pools) : p.key.liq \in {pcm[c].denom, e.cm[c].denom}
+        THEN {V("C16", "liquidity tokens handed to a depositor differ from the floor of the pro-rata share of the liquidity minted", "")} ELSE {})
   \cup (IF defined /\ poolsEq /\ \E k \in DOMAIN ppm : ppm[k].acc # e.pools[k].acc THEN {V("NOTE", "price accumulator differs", "")} ELSE {})
   \cup (IF action.some /\ (rewardid \notin DOMAIN pcm \/ (defined /\ pcm[rewardid] # e.cm[rewardid]))
         THEN {V("C05", "proposer reward coin is not 1/65536 of the fee pool plus all tips at the reward address", "")} ELSE {})
